@@ -387,6 +387,7 @@ void orc_c19_delivery(Delivery &d) {
             // arrivals bunch up when the recipient was not RUNNING, batches its events, or the simulated node is slower than the tick:
             // the bound is asserted for a recipient RUNNING throughout, ticks of >= 1 ms, and seam calls cheaper than the tick
             bool steady = !W->loops.empty() && W->loops.back().blocking && R->cfg.subset_p == 0 &&   // a loop that polls promptly and is told about every ready source
+                          W->c19_min_tick_ns >= 1000000ULL && R->cfg.cost_ns * 50 < W->c19_min_tick_ns &&   // no earlier, faster tick can have left a backlog
                           r.last_non_running_gseq < W->c19_first_tick_gseq && !r.batch_size && !r.batch_timeout && period >= 1000000ULL && R->cfg.cost_ns * 50 < period;
             if (!steady) { r.tick_times.clear(); continue; }
             size_t m = r.tick_times.size();
